@@ -12,9 +12,13 @@ emits a `String`).
                            stages (last stage first), the failing chunk and every later chunk unchanged.
   `fail_in_first_html`     both together for `html h :: post`: the later stages only ever see the first stage's emitted
                            (valid) bytes; its held bytes and the remaining input go out verbatim.
+  `error_path_strong(_final)`       `html (new v) :: post`: a structural DECOMPOSITION + `PrefixSpec` of the first stage only
+  `error_path_strong_full(_final)`  + `FlushSpec`: what the later (never ended) stages emitted and hold, stage by stage
   `replace_one_anybytes_final`, `insert_one_anybytes_final`
                            one html filter, the tokenizer model, ANY bytes, ANY schedule, failing or not: no hypothesis.
-So with a replace filter present no non-markup byte is lost, duplicated or reordered also when the chain fails.
+So with ONE replace filter no non-markup byte is lost, duplicated or reordered also when the chain fails
+(`replace_one_anybytes_final`); for longer chains the bytes are accounted for stage by stage (`FlushSpec`), and a later
+`replace_text` stage swallows what it received (its closed form), as the code does.
 -/
 import RioModel.Props.C04strong
 set_option linter.unusedSimpArgs false
@@ -243,6 +247,12 @@ theorem first_failure (s : HtmlSt) : ∀ cs : List Bytes,
 
 end
 
+/-- where the stage stops filtering: after all chunks when no call fails, otherwise at the FIRST chunk it rejects -/
+def StopsAt (tk : Tokenize) (ev : Bytes → Bytes → Bool) (v : Visitor) (cs : List Bytes) (k : Nat) : Prop :=
+  (k = cs.length ∧ ∃ s' os, seqRunL tk ev (HtmlSt.new v) cs = some (s', os)) ∨
+  (∃ s_k os x, seqRunL tk ev (HtmlSt.new v) (cs.take k) = some (s_k, os) ∧ cs[k]? = some x ∧
+    filterHtml tk ev s_k x = none)
+
 /-! ### packaged -/
 
 section
@@ -282,7 +292,8 @@ theorem feedG_down : ∀ (ps : List Bytes) (items : List (Stage Unit Unit)), Dow
     obtain ⟨items2, out, f⟩ := feedG_down ps items1 d2 (fun q hq => hp q (by simp [hq]))
     exact ⟨items2, o ++ out, by simp [feedG, d1, f]⟩
 
-/-- **C04, strong form through the error path** (abstract laws): a chain `html (new v) :: post` (later stages with valid
+/-- **C04 through the error path, structural decomposition** (abstract laws; the later stages' contribution `outs`,
+`post_k` is only given operationally here — see `error_path_strong_full` for its specification): a chain `html (new v) :: post` (later stages with valid
 values), ARBITRARY bytes, every schedule.  Either no call of the first stage fails, or the chain fails at the first chunk
 `x` the first stage rejects and its whole output is: what the later stages made of the bytes the first stage EMITTED (`outs`),
 what they hold, what the first stage holds, the failing chunk and the later chunks verbatim — where "emitted followed by
@@ -310,15 +321,15 @@ theorem error_path_strong (hr : RestartLaw tk) (hnil : (tk.stream [] []).1 = [])
 
 omit hv in
 /-- **One html stage, ARBITRARY bytes, every schedule, failing or not**: there is a number `k` of chunks (all of them if no
-call fails) such that the output is the strong rendering `PrefixSpec` of the first `k` chunks followed by the other chunks
+call fails, otherwise the index of the FIRST rejected chunk: `StopsAt`) such that the output is the strong rendering `PrefixSpec` of the first `k` chunks followed by the other chunks
 verbatim. -/
 theorem one_html_anybytes (hr : RestartLaw tk) (hnil : (tk.stream [] []).1 = []) (v : Visitor) (hb : v.before = [])
     (hnb : v.isBuffering = false) (cs : List Bytes) :
-    ∃ k B, k ≤ cs.length ∧ PrefixSpec tk v (cs.take k).flatten B ∧
+    ∃ k B, k ≤ cs.length ∧ StopsAt tk ev v cs k ∧ PrefixSpec tk v (cs.take k).flatten B ∧
       ({ items := [.html (HtmlSt.new v)] } : Chain Unit Unit).run tk ev noCodec cs = B ++ (cs.drop k).flatten := by
   rcases first_failure tk ev (HtmlSt.new v) cs with ⟨s', os, h⟩ | ⟨pre, x, rest, h_k, os, rfl, h2, h3⟩
   · have hs : seqRun tk ev (HtmlSt.new v) cs = some (s', os.flatten) := by rw [seqRunL_flat, h]; rfl
-    refine ⟨cs.length, os.flatten ++ endHtml s', Nat.le_refl _, ?_, ?_⟩
+    refine ⟨cs.length, os.flatten ++ endHtml s', Nat.le_refl _, Or.inl ⟨rfl, s', os, h⟩, ?_, ?_⟩
     · rw [List.take_length]
       exact prefix_spec hl hr hnil ev v hb hnb cs s' os.flatten hs
     · rw [run_single_html tk ev noCodec cs (HtmlSt.new v) s' os.flatten hs]
@@ -332,7 +343,8 @@ theorem one_html_anybytes (hr : RestartLaw tk) (hnil : (tk.stream [] []).1 = [])
         | cons p ps ih => simp [feedG, doFilter, ih]
       rw [this, nonEmpty_flatten]
     have hrun := fail_in_first_html tk ev noCodec (HtmlSt.new v) h_k [] [] pre x rest os os.flatten h2 h3 hp
-    refine ⟨pre.length, os.flatten ++ endHtml h_k, by simp, ?_, ?_⟩
+    refine ⟨pre.length, os.flatten ++ endHtml h_k, by simp,
+      Or.inr ⟨h_k, os, x, by rw [List.take_left' rfl]; exact h2, by simp, h3⟩, ?_, ?_⟩
     · rw [List.take_left']
       · exact prefix_spec hl hr hnil ev v hb hnb pre h_k os.flatten hs
       · rfl
@@ -342,10 +354,145 @@ theorem one_html_anybytes (hr : RestartLaw tk) (hnil : (tk.stream [] []).1 = [])
 
 end
 
+/-! ### the later stages (review D, C04err-1): what `outs ++ flushHtml post_k` is, in terms of what the first stage emitted
+
+The later stages are never ended in a failing run: each has received the bytes `a` the stage before it EMITTED, has emitted
+`e` itself and still holds `h`; `flushHtml` gives the held bytes back verbatim, last stage first, WITHOUT passing them through
+the stages behind.  `MidSpec`: an html stage — `e ++ h` is the strong rendering `PrefixSpec` of `a`; a text stage — it holds
+nothing and `e` is its closed form `stageTotal` minus what it would still emit at `end()` (append_text: `e = a`, its value is
+never emitted; prepend_text: `value ++ a` once it has been called; replace_text: its value, i.e. the bytes it received ARE
+swallowed — the code does exactly this, `replace_text` is no conservative filter). -/
+
+def heldOf : Stage Unit Unit → Bytes
+  | .html s => endHtml s
+  | _ => []
+
+theorem flushHtml_cons (st : Stage Unit Unit) (rest : List (Stage Unit Unit)) :
+    flushHtml (st :: rest) = flushHtml rest ++ heldOf st := by
+  cases st <;> simp [flushHtml, heldOf]
+
+/-- one later stage in a failing run: received `a`, emitted `e`, holds `h` -/
+def MidSpec (tk : Tokenize) : Stage Unit Unit → Bytes → Bytes → Bytes → Prop
+  | .html s, a, e, h => ∃ v : Visitor, s = HtmlSt.new v ∧ v.before = [] ∧ v.isBuffering = false ∧ PrefixSpec tk v a (e ++ h)
+  | .text s, a, e, h => h = [] ∧ ∃ t, stageTotal s a = e ++ t
+  | _, _, _, _ => False
+
+/-- the later stages in order: stage j receives what stage j-1 emitted; the held bytes bypass the stages behind -/
+def FlushSpec (tk : Tokenize) : List (Stage Unit Unit) → Bytes → Bytes → Prop
+  | [], a, out => out = a
+  | st :: rest, a, out => ∃ e h out', MidSpec tk st a e h ∧ FlushSpec tk rest e out' ∧ out = out' ++ h
+
+section
+variable {tk : Tokenize} (hl : LosslessAll tk) (hr : RestartLaw tk) (hnil : (tk.stream [] []).1 = [])
+  (ev : Bytes → Bytes → Bool)
+include hl hr hnil
+
+/-- **What fresh later stages have emitted and hold after being fed the pieces `ps`** (no `end()`): `FlushSpec`. -/
+theorem flush_spec : ∀ (post : List (Stage Unit Unit)) (ps : List Bytes) (post_k : List (Stage Unit Unit)) (outs : Bytes),
+    (∀ st ∈ post, StageFresh st ∧ isPlain st = true) → feedG tk ev noCodec post ps = some (post_k, outs) →
+    FlushSpec tk post ps.flatten (outs ++ flushHtml post_k)
+  | [], ps, post_k, outs, _, h => by
+    have : ∀ ps : List Bytes, feedG tk ev noCodec ([] : List (Stage Unit Unit)) ps = some ([], ps.flatten) := by
+      intro ps
+      induction ps with
+      | nil => rfl
+      | cons p ps ih => simp [feedG, doFilter, ih]
+    rw [this] at h
+    injection h with h; injection h with h1 h2; subst h1 h2
+    simp [FlushSpec, flushHtml]
+  | st :: rest, ps, post_k, outs, hf, h => by
+    rw [feedG_cons] at h
+    cases hfe : stFeed tk ev noCodec st ps with
+    | none => simp [hfe] at h
+    | some r =>
+      obtain ⟨st1, os1⟩ := r
+      simp only [hfe, Option.map_eq_some_iff] at h
+      obtain ⟨⟨rest_k, outs'⟩, h1, h2⟩ := h
+      injection h2 with h2 h3
+      subst h2 h3
+      have ih := flush_spec rest (nonEmpty os1) rest_k outs' (fun s hs => hf s (by simp [hs])) h1
+      rw [nonEmpty_flatten] at ih
+      refine ⟨os1.flatten, heldOf st1, outs' ++ flushHtml rest_k, ?_, ih, by rw [flushHtml_cons]; simp [List.append_assoc]⟩
+      obtain ⟨hfresh, hplain⟩ := hf st (by simp)
+      cases st with
+      | html s =>
+        obtain ⟨v, rfl, hb, hnb⟩ := hfresh
+        rw [stFeed_html] at hfe
+        cases hsl : seqRunL tk ev (HtmlSt.new v) ps with
+        | none => simp [hsl] at hfe
+        | some r2 =>
+          obtain ⟨s1, os2⟩ := r2
+          simp only [hsl, Option.map_some] at hfe
+          injection hfe with hfe
+          injection hfe with e1 e2
+          subst e1 e2
+          have hs : seqRun tk ev (HtmlSt.new v) ps = some (s1, os2.flatten) := by rw [seqRunL_flat, hsl]; rfl
+          exact ⟨v, rfl, hb, hnb, prefix_spec hl hr hnil ev v hb hnb ps s1 os2.flatten hs⟩
+      | text s =>
+        obtain ⟨s1', os', g1, g2⟩ := stFeed_text tk ev noCodec ps s
+        rw [g1] at hfe
+        injection hfe with hfe
+        injection hfe with e1 e2
+        subst e1 e2
+        refine ⟨rfl, stageTotal s1' [], ?_⟩
+        simpa using g2 []
+      | decode d => simp [isPlain] at hplain
+      | encode e => simp [isPlain] at hplain
+
+end
+
+section
+variable {tk : Tokenize} (hl : LosslessAll tk) (hv : TokValidAll tk) (ev : Bytes → Bytes → Bool)
+include hl hv
+
+/-- **C04, strong form through the error path, chains of any length that START with the html stage** (abstract laws).
+As `error_path_strong`, and in addition the contribution of the later stages is SPECIFIED: `outs ++ flushHtml post_k` is the
+`FlushSpec` rendering of the bytes `os.flatten` the first stage emitted — every later html stage meets `PrefixSpec` on what
+it received (emitted ++ held), every later text stage its closed form, held bytes bypass the stages behind.  So the bytes
+of the body are accounted for stage by stage also when the chain fails; a later `replace_text` swallows what it receives
+(closed form `MidSpec`), which is what the code does. -/
+theorem error_path_strong_full (hr : RestartLaw tk) (hnil : (tk.stream [] []).1 = []) (v : Visitor) (hb : v.before = [])
+    (hnb : v.isBuffering = false) (hcv : V v.content) (post : List (Stage Unit Unit)) (hd : Down post)
+    (hfresh : ∀ st ∈ post, StageFresh st) (cs : List Bytes) :
+    (∃ s' os, seqRunL tk ev (HtmlSt.new v) cs = some (s', os)) ∨
+    (∃ pre x rest h_k os mid, cs = pre ++ x :: rest ∧
+      seqRunL tk ev (HtmlSt.new v) pre = some (h_k, os) ∧ filterHtml tk ev h_k x = none ∧
+      ({ items := .html (HtmlSt.new v) :: post } : Chain Unit Unit).run tk ev noCodec cs =
+        mid ++ endHtml h_k ++ x ++ rest.flatten ∧
+      PrefixSpec tk v pre.flatten (os.flatten ++ endHtml h_k) ∧
+      FlushSpec tk post os.flatten mid) := by
+  rcases error_path_strong hl hv ev hr hnil v hb hnb hcv post hd cs with h | ⟨pre, x, rest, h_k, os, post_k, outs, e1, e2, e3, e4, e5, e6⟩
+  · exact Or.inl h
+  · right
+    have hplain : ∀ st ∈ post, StageFresh st ∧ isPlain st = true := by
+      intro st hst
+      refine ⟨hfresh st hst, ?_⟩
+      have := hd st hst
+      cases st <;> simp_all [DStage, isPlain]
+    have hfl := flush_spec hl hr hnil ev post (nonEmpty os) post_k outs hplain e4
+    rw [nonEmpty_flatten] at hfl
+    exact ⟨pre, x, rest, h_k, os, outs ++ flushHtml post_k, e1, e2, e3, by rw [e5], e6, hfl⟩
+
+end
+
+/-- the same on the tokenizer model, no tokenizer hypothesis -/
+theorem error_path_strong_full_final (ev : Bytes → Bytes → Bool) (v : Visitor) (hb : v.before = [])
+    (hnb : v.isBuffering = false) (hcv : V v.content) (post : List (Stage Unit Unit)) (hd : Down post)
+    (hfresh : ∀ st ∈ post, StageFresh st) (cs : List Bytes) :
+    (∃ s' os, seqRunL htmlTokenize ev (HtmlSt.new v) cs = some (s', os)) ∨
+    (∃ pre x rest h_k os mid, cs = pre ++ x :: rest ∧
+      seqRunL htmlTokenize ev (HtmlSt.new v) pre = some (h_k, os) ∧ filterHtml htmlTokenize ev h_k x = none ∧
+      ({ items := .html (HtmlSt.new v) :: post } : Chain Unit Unit).run htmlTokenize ev noCodec cs =
+        mid ++ endHtml h_k ++ x ++ rest.flatten ∧
+      PrefixSpec htmlTokenize v pre.flatten (os.flatten ++ endHtml h_k) ∧
+      FlushSpec htmlTokenize post os.flatten mid) :=
+  error_path_strong_full htmlTokenize_losslessAll tokenizer_tokValid ev htmlTokenize_restartLaw htmlStream_nil_nil
+    v hb hnb hcv post hd hfresh cs
+
 /-! ### on the tokenizer model: one html filter, no hypothesis -/
 
 /-- **One `replace` filter, ANY bytes (invalid UTF-8 included), ANY schedule, whether or not the chain fails.**  There is a
-number `k` of chunks (all of them when no call fails; otherwise the chunks before the failing one) such that, with
+number `k` of chunks (all of them when no call fails; otherwise the chunks before the FIRST failing one: `StopsAt`) such that, with
 `data ++ pending` the validated part and the incomplete last character of the first `k` chunks and `T ++ rem` the
 tokenization of `data`: the output is `o' ++ rem ++ pending` followed by the remaining chunks VERBATIM, where `o'` renders `T`
 replacing only non-overlapping element spans of the target (`RScript`).  No byte outside such a span is lost, duplicated or
@@ -354,7 +501,9 @@ theorem replace_one_anybytes_final (ev : Bytes → Bytes → Bool) (lower : Stri
     (p : Bytes) (ps : List Bytes) (sel : Option Bytes) (value : Bytes)
     (henc : headerValue lower Rio.Consts.filterHeaderContentEncoding headers = none)
     (hct : htmlAllowed (headerValue lower Rio.Consts.filterHeaderContentType headers) = true) (cs : List Bytes) :
-    ∃ k data pending tgt o', k ≤ cs.length ∧ utf8Split (cs.take k).flatten = some (data, pending) ∧
+    ∃ k data pending tgt o', k ≤ cs.length ∧
+      StopsAt htmlTokenize ev { kind := .replace, cur := p, after := ps, sel := sel, content := value } cs k ∧
+      utf8Split (cs.take k).flatten = some (data, pending) ∧
       (p :: ps).getLast? = some tgt ∧ RScript tgt value (view htmlTokenize [] data).all o' ∧
       (Chain.new noCodec lower [.html Rio.Consts.filterActionReplace (p :: ps) sel value] headers).run htmlTokenize ev noCodec cs =
         o' ++ (view htmlTokenize [] data).rem ++ pending ++ (cs.drop k).flatten := by
@@ -365,11 +514,11 @@ theorem replace_one_anybytes_final (ev : Bytes → Bytes → Bool) (lower : Stri
     rw [new_plain noCodec lower _ headers henc] at hitems ⊢
     simp only at hitems
     rw [hitems]
-  obtain ⟨k, B, hk, ⟨data, pending, h1, h2⟩, h3⟩ := one_html_anybytes htmlTokenize_losslessAll ev htmlTokenize_restartLaw
+  obtain ⟨k, B, hk, hst, ⟨data, pending, h1, h2⟩, h3⟩ := one_html_anybytes htmlTokenize_losslessAll ev htmlTokenize_restartLaw
     htmlStream_nil_nil { kind := .replace, cur := p, after := ps, sel := sel, content := value } rfl rfl cs
   simp only at h2
   obtain ⟨tgt, o', e1, e2, e3⟩ := h2
-  refine ⟨k, data, pending, tgt, o', hk, h1, by simpa [pathOf] using e1, e2, ?_⟩
+  refine ⟨k, data, pending, tgt, o', hk, hst, h1, by simpa [pathOf] using e1, e2, ?_⟩
   rw [hch, h3, e3]
 
 /-- **One `append_child` / `prepend_child` filter, ANY bytes, ANY schedule, failing or not**: the output is `B` followed by
@@ -380,14 +529,16 @@ theorem insert_one_anybytes_final (ev : Bytes → Bytes → Bool) (lower : Strin
     (p : Bytes) (ps : List Bytes) (sel : Option Bytes) (value : Bytes)
     (henc : headerValue lower Rio.Consts.filterHeaderContentEncoding headers = none)
     (hct : htmlAllowed (headerValue lower Rio.Consts.filterHeaderContentType headers) = true) (cs : List Bytes) :
-    ∃ k B data pending, k ≤ cs.length ∧ utf8Split (cs.take k).flatten = some (data, pending) ∧
+    ∃ (v : Visitor) (k : Nat) (B data pending : Bytes), Visitor.new action (p :: ps) sel value = some v ∧ k ≤ cs.length ∧
+      StopsAt htmlTokenize ev v cs k ∧ utf8Split (cs.take k).flatten = some (data, pending) ∧
       Edit [value] [] (cs.take k).flatten B ∧
       B.length ≤ (cs.take k).flatten.length + value.length * ((view htmlTokenize [] data).all.filter (onPath (p :: ps))).length ∧
       (Chain.new noCodec lower [.html action (p :: ps) sel value] headers).run htmlTokenize ev noCodec cs =
         B ++ (cs.drop k).flatten := by
   have key : ∀ kd : VKind, kd ≠ .replace →
       Visitor.new action (p :: ps) sel value = some { kind := kd, cur := p, after := ps, sel := sel, content := value } →
-      ∃ k B data pending, k ≤ cs.length ∧ utf8Split (cs.take k).flatten = some (data, pending) ∧
+      ∃ (v : Visitor) (k : Nat) (B data pending : Bytes), Visitor.new action (p :: ps) sel value = some v ∧ k ≤ cs.length ∧
+        StopsAt htmlTokenize ev v cs k ∧ utf8Split (cs.take k).flatten = some (data, pending) ∧
         Edit [value] [] (cs.take k).flatten B ∧
         B.length ≤ (cs.take k).flatten.length + value.length * ((view htmlTokenize [] data).all.filter (onPath (p :: ps))).length ∧
         (Chain.new noCodec lower [.html action (p :: ps) sel value] headers).run htmlTokenize ev noCodec cs =
@@ -399,16 +550,16 @@ theorem insert_one_anybytes_final (ev : Bytes → Bytes → Bool) (lower : Strin
       rw [new_plain noCodec lower _ headers henc] at hitems ⊢
       simp only at hitems
       rw [hitems]
-    obtain ⟨k, B, hk, ⟨data, pending, h1, h2⟩, h3⟩ := one_html_anybytes htmlTokenize_losslessAll ev htmlTokenize_restartLaw
+    obtain ⟨k, B, hk, hst, ⟨data, pending, h1, h2⟩, h3⟩ := one_html_anybytes htmlTokenize_losslessAll ev htmlTokenize_restartLaw
       htmlStream_nil_nil { kind := kd, cur := p, after := ps, sel := sel, content := value } rfl rfl cs
     cases kd with
     | replace => exact absurd rfl hkd
     | append =>
       simp only at h2
-      exact ⟨k, B, data, pending, hk, h1, h2.1, by simpa [pathOf] using h2.2, by rw [hch, h3]⟩
+      exact ⟨_, k, B, data, pending, hnew, hk, hst, h1, h2.1, by simpa [pathOf] using h2.2, by rw [hch, h3]⟩
     | prepend =>
       simp only at h2
-      exact ⟨k, B, data, pending, hk, h1, h2.1, by simpa [pathOf] using h2.2, by rw [hch, h3]⟩
+      exact ⟨_, k, B, data, pending, hnew, hk, hst, h1, h2.1, by simpa [pathOf] using h2.2, by rw [hch, h3]⟩
   rcases hact with rfl | rfl
   · exact key .append (by simp) (by simp [Visitor.new, Rio.Consts.filterActionReplace, Rio.Consts.filterActionAppend, Rio.Consts.filterActionPrepend])
   · exact key .prepend (by simp) (by simp [Visitor.new, Rio.Consts.filterActionReplace, Rio.Consts.filterActionAppend, Rio.Consts.filterActionPrepend])
@@ -424,5 +575,73 @@ theorem error_path_strong_final (ev : Bytes → Bytes → Bool) (v : Visitor) (h
         outs ++ flushHtml post_k ++ endHtml h_k ++ x ++ rest.flatten ∧
       PrefixSpec htmlTokenize v pre.flatten (os.flatten ++ endHtml h_k)) :=
   error_path_strong htmlTokenize_losslessAll tokenizer_tokValid ev htmlTokenize_restartLaw htmlStream_nil_nil v hb hnb hcv post hd cs
+
+/-! ### non-vacuity (review D, item 6) -/
+
+/-- `content-type: text/html`, no `content-encoding` -/
+def exHeaders : List (String × String) := [("content-type", "text/html")]
+
+/-- `<div>a<p>x</p>b<p>y` ‖ `0xFF` ‖ `z</p></div>q` -/
+def exChunks : List Bytes :=
+  [[60, 100, 105, 118, 62, 97, 60, 112, 62, 120, 60, 47, 112, 62, 98, 60, 112, 62, 121], [255],
+   [122, 60, 47, 112, 62, 60, 47, 100, 105, 118, 62, 113]]
+
+/-- `replace_one_anybytes_final` instantiated as the reviewer wrote it (chunks `<p>`, `0xFF`): the hypotheses are decidable
+facts about the headers -/
+example :=
+  replace_one_anybytes_final evalStandIn id exHeaders [100, 105, 118] [[112]] none [78, 69, 87] (by decide) (by decide)
+    [[60, 112, 62], [255]]
+
+/-- an evaluated FAILING run (replace `p` under `div` by `NEW`; the second chunk is invalid UTF-8): the first `p` element was
+replaced, `<p>y` was held and comes back verbatim, then the failing chunk and the rest — `<div>aNEWb<p>y` `0xFF`
+`z</p></div>q` -/
+theorem replace_anybytes_run :
+    (Chain.new noCodec id [.html Rio.Consts.filterActionReplace [[100, 105, 118], [112]] none [78, 69, 87]] exHeaders).run
+        htmlTokenize evalStandIn noCodec exChunks =
+      [60, 100, 105, 118, 62, 97, 78, 69, 87, 98, 60, 112, 62, 121] ++ [255] ++
+        [122, 60, 47, 112, 62, 60, 47, 100, 105, 118, 62, 113] := by
+  decide +kernel
+
+def exV : Visitor := { kind := .replace, cur := [100, 105, 118], after := [[112]], content := [78, 69, 87] }
+/-- a later stage: `append_child` of `$` into `div` -/
+def exPost : List (Stage Unit Unit) := [.html (HtmlSt.new { kind := .append, cur := [100, 105, 118], content := [36] })]
+
+theorem exChunks_fail : (seqRunL htmlTokenize evalStandIn (HtmlSt.new exV) exChunks).isNone = true := by
+  decide +kernel
+
+/-- **The SECOND disjunct of `error_path_strong_full_final` is inhabited** (two html stages, the failing run above): the
+first disjunct is refuted by evaluation, so the theorem yields the decomposition with `PrefixSpec` and `FlushSpec`. -/
+theorem error_path_example :
+    ∃ pre x rest h_k os mid, exChunks = pre ++ x :: rest ∧
+      seqRunL htmlTokenize evalStandIn (HtmlSt.new exV) pre = some (h_k, os) ∧
+      filterHtml htmlTokenize evalStandIn h_k x = none ∧
+      ({ items := .html (HtmlSt.new exV) :: exPost } : Chain Unit Unit).run htmlTokenize evalStandIn noCodec exChunks =
+        mid ++ endHtml h_k ++ x ++ rest.flatten ∧
+      PrefixSpec htmlTokenize exV pre.flatten (os.flatten ++ endHtml h_k) ∧
+      FlushSpec htmlTokenize exPost os.flatten mid := by
+  have hd : Down exPost := by
+    intro st hst
+    simp only [exPost, List.mem_singleton] at hst
+    subst hst
+    exact ⟨⟨⟨by show V [36]; unfold V; decide, by intro l hl; simp [HtmlSt.new] at hl⟩, Or.inl rfl⟩, V_nil⟩
+  have hf : ∀ st ∈ exPost, StageFresh st := by
+    intro st hst
+    simp only [exPost, List.mem_singleton] at hst
+    subst hst
+    exact ⟨_, rfl, rfl, rfl⟩
+  rcases error_path_strong_full_final evalStandIn exV rfl rfl (by show V [78, 69, 87]; unfold V; decide) exPost hd hf
+      exChunks with ⟨s', os, h⟩ | h
+  · have := exChunks_fail
+    rw [h] at this
+    simp at this
+  · exact h
+
+/-- ... and what that run emits: the second stage saw only `<div>aNEWb`, holds nothing, the first stage's held `<p>y`, the
+failing chunk and the rest follow verbatim -/
+theorem error_path_example_run :
+    ({ items := .html (HtmlSt.new exV) :: exPost } : Chain Unit Unit).run htmlTokenize evalStandIn noCodec exChunks =
+      [60, 100, 105, 118, 62, 97, 78, 69, 87, 98, 60, 112, 62, 121] ++ [255] ++
+        [122, 60, 47, 112, 62, 60, 47, 100, 105, 118, 62, 113] := by
+  decide +kernel
 
 end Rio.C04
